@@ -177,7 +177,12 @@ inductive Ex (α : Type) where
   | reduce (op : OpK) (vars : List Name) (e : Ex α)
   | contr (red bin : OpK) (vars : List Name) (ts : List (Ex α))
   | subs (e : Ex α) (σ : List (Name × Arg))
-  | unary (u : α → α) (e : Ex α)
+  /-- `hom`: the operator over whose product-free Contractions `unary_contract` distributes this op
+      (`add` for negation, `mul` for reciprocal; `null`: the rule is not registered for it). -/
+  | unary (hom : OpK) (u : α → α) (e : Ex α)
+  /-- A Binary with a non-associative op `f` (sub, truediv): `k ≠ null` says the normalize rules
+      `binary_subtract` / `binary_divide` rewrite it to `l ⟨k⟩ u(r)` (`k = null`: opaque). -/
+  | binop (k : OpK) (u : α → α) (f : α → α → α) (l r : Ex α)
 
 def sumV (o : Ops α) (xs : List α) : α := xs.foldr o.add o.zero
 
@@ -210,7 +215,8 @@ mutual
     | .contr red bin vars ts, env =>
         redFold o size red vars (fun env' => binFold o bin (evalList o size ts env')) env
     | .subs e σ, env => e.eval o size (applySubs σ env)
-    | .unary u e, env => u (e.eval o size env)
+    | .unary _ u e, env => u (e.eval o size env)
+    | .binop _ _ f l r, env => f (l.eval o size env) (r.eval o size env)
   def evalList (o : Ops α) (size : Name → Nat) : List (Ex α) → Env → List α
     | [], _ => []
     | t :: ts, env => t.eval o size env :: evalList o size ts env
@@ -226,7 +232,8 @@ mutual
     | .contr _ _ vars ts => lDiff (insList ts) vars
     | .subs e σ => (lDiff e.ins (σ.map (·.1))) ++
         (σ.filterMap fun p => match p.2 with | .var m => if p.1 ∈ e.ins then some m else none | .lit _ => none)
-    | .unary _ e => e.ins
+    | .unary _ _ e => e.ins
+    | .binop _ _ _ l r => lUnion l.ins r.ins
   def insList : List (Ex α) → List Name
     | [] => []
     | t :: ts => lUnion t.ins (insList ts)
@@ -322,10 +329,27 @@ def ruleSubsContr : Ex α → Option (Ex α)
       if (restrictSubs σ t.ins).isEmpty then t else .subs t (restrictSubs σ t.ins)))
   | _ => none
 
-/-- cnf.py:592-599 `unary_contract`: a unary op distributes over a product-free Contraction. -/
+/-- cnf.py:592-599 `unary_contract`: a unary op distributes over a product-free Contraction of the
+    operator it is registered for (`neg` over `+`, `reciprocal` over `*`). -/
 def ruleUnaryContr : Ex α → Option (Ex α)
-  | .unary u (.contr .null bin vars ts) =>
-    if bin ≠ .null then some (.contr .null bin vars (ts.map (.unary u))) else none
+  | .unary hom u (.contr .null bin vars ts) =>
+    if bin ≠ .null ∧ bin = hom then some (.contr .null bin vars (ts.map (.unary hom u))) else none
+  | _ => none
+
+/-- cnf.py:574-581 `binary_subtract` (`lhs + -rhs`) and `binary_divide` (`lhs * reciprocal(rhs)`). -/
+def ruleBinopInv : Ex α → Option (Ex α)
+  | .binop k u _ l r => if k ≠ .null then some (.binary k l (.unary k u r)) else none
+  | _ => none
+
+/-- cnf.py:413-430 `normalize_contraction_commutative_canonical_order`: two ground terms under the
+    commutative `ops.add` (`addK`: what `ops.add` is in this semiring) are put in the order of
+    `ORDERING` (`ground t = some rank`; `none`: not a ground term); if they already are, the generic
+    cascade runs. -/
+def ruleCanonOrder (addK : OpK) (ground : Ex α → Option Nat) : Ex α → Option (Ex α)
+  | .contr red bin vars [a, b] =>
+    match ground a, ground b with
+    | some ka, some kb => if bin = addK ∧ kb < ka then some (.contr red bin vars [b, a]) else none
+    | _, _ => none
   | _ => none
 
 /-- optimizer.py:28-69, one position `i` of the loop: distribute / pull the reduction out / fuse. -/
@@ -352,7 +376,8 @@ def ruleUnfold : Ex α → Option (Ex α)
 /-- `normalize_contraction_generic_tuple` (cnf.py:464-507): the if-cascade in source order, preceded by
     the rules that create Contractions from Binary / Reduce and that distribute Subs / Unary. -/
 def normRoot (isU : OpK → α → Bool) (t : Ex α) : Option (Ex α) :=
-  (ruleBinary t).orElse fun _ => (ruleReduce t).orElse fun _ => (ruleSubsContr t).orElse fun _ =>
+  (ruleBinary t).orElse fun _ => (ruleReduce t).orElse fun _ => (ruleBinopInv t).orElse fun _ =>
+  (ruleSubsContr t).orElse fun _ =>
   (ruleUnaryContr t).orElse fun _ => (ruleNullRed t).orElse fun _ => (ruleSingle t).orElse fun _ =>
   (ruleTrivial t).orElse fun _ => (ruleRedIsBin t).orElse fun _ => (ruleUnits isU t).orElse fun _ =>
   ruleFuse t
@@ -364,26 +389,25 @@ def iterRoot (step : Ex α → Option (Ex α)) : Nat → Ex α → Ex α
     | none => t
     | some t' => iterRoot step n t'
 
-mutual
-  /-- Bottom-up normalisation as `reinterpret` does it: children first, then the root rules to a fixpoint
-      (`fuel` bounds the total depth of rule-created nodes that are themselves re-normalised). -/
-  def norm (isU : OpK → α → Bool) : Nat → Ex α → Ex α
-    | 0, t => t
-    | fuel + 1, t =>
-      let t' : Ex α := match t with
-        | .binary op l r => .binary op (norm isU fuel l) (norm isU fuel r)
-        | .reduce op vars e => .reduce op vars (norm isU fuel e)
-        | .contr red bin vars ts => .contr red bin vars (normList isU fuel ts)
-        | .subs e σ => .subs (norm isU fuel e) σ
-        | .unary u e => .unary u (norm isU fuel e)
-        | t => t
-      match normRoot isU t' with
-      | none => t'
-      | some t'' => norm isU fuel t''
-  def normList (isU : OpK → α → Bool) : Nat → List (Ex α) → List (Ex α)
-    | _, [] => []
-    | fuel, t :: ts => norm isU fuel t :: normList isU fuel ts
-end
+/-- Apply `f` to the direct sub-terms. -/
+def mapChildren (f : Ex α → Ex α) : Ex α → Ex α
+  | .binary op l r => .binary op (f l) (f r)
+  | .reduce op vars e => .reduce op vars (f e)
+  | .contr red bin vars ts => .contr red bin vars (ts.map f)
+  | .subs e σ => .subs (f e) σ
+  | .unary h u e => .unary h u (f e)
+  | .binop k u g l r => .binop k u g (f l) (f r)
+  | t => t
+
+/-- Bottom-up normalisation as `reinterpret` does it: children first, then the root rule; a term the
+    rule produces is normalised again (`fuel` bounds the number of nested re-normalisations). -/
+def norm (isU : OpK → α → Bool) : Nat → Ex α → Ex α
+  | 0, t => t
+  | fuel + 1, t =>
+    let t' := mapChildren (norm isU fuel) t
+    match normRoot isU t' with
+    | none => t'
+    | some t'' => norm isU fuel t''
 
 /-- A flat normal form: a well-formed Contraction none of whose operands is a Contraction, a Binary, a
     Reduce or a ⊗-unit number (`Delta, Number, Tensor, Gaussian` leaves in the code's words). -/
